@@ -39,7 +39,7 @@ META = {
 
 T_ = t.TypeVar('T_')
 PROBES: t.List[t.Any] = [[1, 'a', 2.0], ['a', 2.0, 1], ['a'], {'a': 1.0}, {'x': 1}, {'x': 'a'}, [1, 'a'], {'v': 1}, {'v': 'a'}, [1],
-                         {'inner': {'x': 1}, 'n': 1}, 7]
+                         {'inner': {'x': 1}, 'n': 1}, 7, 0, -0.0, 0.0, 1]
 
 _FIX: t.Dict[str, t.Any] = {}
 
@@ -58,12 +58,12 @@ def fixtures(pane):
             return f"int (x{self.k})"
 
         def try_convert(self, val):
-            if type(val) is int:
+            if type(val) in (int, float):
                 return val * self.k
             raise ParseInterrupt()
 
         def collect_errors(self, val):
-            return None if type(val) is int else WrongTypeError(self.expected(), val)
+            return None if type(val) in (int, float) else WrongTypeError(self.expected(), val)
 
         def into_data(self, val):
             return val // self.k
@@ -109,22 +109,34 @@ KINDS: t.Dict[str, t.Callable[[t.Any], t.Any]] = {
     'generic_int': lambda pane: _fresh_generic(pane, int),
     'generic_str': lambda pane: _fresh_generic(pane, str),
     'long_list': lambda pane: fixtures(pane)['LONG'],
+    'float_t': lambda pane: float,
+    'complex_t': lambda pane: complex,
     'inner_dc': lambda pane: fixtures(pane)['Inner'],
     'outer_dc': lambda pane: fixtures(pane)['Outer'],
 }
 KIND_NAMES = list(KINDS)
-HFORMS = ['plain', 'map', 'callable', 'seq']
+HFORMS = ['plain', 'map', 'callable', 'seq', 'smap_a', 'smap_b']     # smap_*: ONE shared dict object whose content is changed between calls
 # alphabets per tier: (kinds that may be BUILT, handler forms at inner levels); the last level always tries all four handler forms
 ALPHABET = {
-    'quick': (['tup_a', 'tup_b', 'list_str', 'dict_sf', 'struct_int', 'generic_int', 'inner_dc', 'outer_dc'], ['plain', 'callable']),
+    'quick': (['tup_a', 'tup_b', 'list_str', 'generic_int', 'inner_dc', 'outer_dc', 'float_t'], ['plain', 'callable', 'smap_a']),
     'thorough': (KIND_NAMES, HFORMS),
 }
 
 
-def handlers_for(pane, hform):
+_SHARED_MAP: t.Dict[t.Any, t.Any] = {}
+
+
+def handlers_for(pane, hform, fresh=False):
     fx = fixtures(pane)
     if hform == 'plain':
         return None
+    if hform in ('smap_a', 'smap_b'):
+        content = {int: fx['times3']} if hform == 'smap_a' else {int: fx['times10'], float: fx['times3']}
+        if fresh:
+            return dict(content)
+        _SHARED_MAP.clear()                # the application's registry dict: same object, new content
+        _SHARED_MAP.update(content)
+        return _SHARED_MAP
     if hform == 'map':
         return {int: fx['times3']}
     if hform == 'callable':
@@ -132,13 +144,22 @@ def handlers_for(pane, hform):
     return [fx['h_never'], fx['h10']]
 
 
-def outcome_vector(pane, ty, hform):
+def outcome_vector(pane, ty, hform, fresh=False, reverse=False, only=None):
     """Outcome of converting every probe to `ty` with the given handler form + the converter's expected() string."""
     from pane.errors import ConvertError
     from pane.convert import make_converter, ConverterHandlers
-    custom = handlers_for(pane, hform)
+    custom = handlers_for(pane, hform, fresh)
     vec = []
-    for p in PROBES:
+    order = list(reversed(PROBES)) if reverse else PROBES
+    if only is not None:
+        if only == len(PROBES):
+            try:
+                exp = make_converter(ty, ConverterHandlers.make(custom)).expected() if hform in ('plain', 'callable') else ''
+            except Exception as e:  # noqa
+                exp = f"<{type(e).__name__}>"
+            return ['expected', exp]
+        order = [PROBES[only]]
+    for p in order:
         try:
             r = pane.from_data(values.fresh(p), ty, custom=custom)
             vec.append(('ok', repr(r)))
@@ -153,6 +174,10 @@ def outcome_vector(pane, ty, hform):
             exp = ''
     except Exception as e:  # noqa
         exp = f"<{type(e).__name__}>"
+    if only is not None:
+        return list(vec[0])
+    if reverse:
+        vec.reverse()
     vec.append(('expected', exp))
     return tuple(vec)
 
@@ -174,15 +199,63 @@ def reset(pane):
         _DIRTY[0] = False
 
 
-def pristine_table(pane):
+def pristine_kind(kind):
+    """Run inside a fresh interpreter: the outcome vectors of one kind, each probe sequence in REVERSE order with freshly
+    built handler objects (so any dependence on what was converted before, or on handler object identity, shows up as a
+    difference from what the history search observes)."""
+    import os
+    import json as _json
+    pane = core.import_pane()
+    warnings.simplefilter('ignore')
+    fixtures(pane)
+    out = {}
+    for hf in HFORMS:
+        vec = []
+        for pi in range(len(PROBES) + 1):
+            # every probe in its own forked child: nothing converted before it, not even another probe
+            r, w = os.pipe()
+            pid = os.fork()
+            if pid == 0:
+                try:
+                    os.close(r)
+                    reset(pane)
+                    ty = KINDS[kind](pane)
+                    full = outcome_vector(pane, ty, hf, fresh=True, only=pi)
+                    os.write(w, _json.dumps(full).encode())
+                finally:
+                    os._exit(0)
+            os.close(w)
+            data = b''
+            while True:
+                chunk = os.read(r, 65536)
+                if not chunk:
+                    break
+                data += chunk
+            os.close(r)
+            os.waitpid(pid, 0)
+            vec.append(_json.loads(data.decode()))
+        out[hf] = vec
+    return out
+
+
+def pristine_table(pane=None):
+    import concurrent.futures
+    import json
+    import subprocess
+
+    def one(kind):
+        code = (f"import sys, json; sys.path.insert(0, {core.VERIF!r}); sys.dont_write_bytecode = True\n"
+                f"from mc.checks import c10\nprint(json.dumps(c10.pristine_kind({kind!r})))")
+        p = subprocess.run([core.PY, '-c', code], capture_output=True, text=True, timeout=600, cwd=core.VERIF,
+                           env=dict(__import__('os').environ, PYTHONHASHSEED='0'))
+        if p.returncode != 0:
+            raise RuntimeError(f"pristine interpreter for {kind} failed: {p.stderr[-800:]}")
+        return kind, json.loads(p.stdout.strip().splitlines()[-1])
     tab = {}
-    for kind in KIND_NAMES:
-        for hf in HFORMS:
-            reset(pane)
-            ty = KINDS[kind](pane)
-            tab[(kind, hf)] = outcome_vector(pane, ty, hf)
-            del ty
-    reset(pane)
+    with concurrent.futures.ThreadPoolExecutor(4) as ex:
+        for kind, d in ex.map(one, KIND_NAMES):
+            for hf, vec in d.items():
+                tab[(kind, hf)] = tuple(tuple(x) for x in vec)
     return tab
 
 
@@ -216,7 +289,7 @@ class HState:
             self.alias[s] = self.dead_ids.get(id(obj))
         elif name == 'CONVERT':
             s, hf = op[1], op[2]
-            got = outcome_vector(pane, self.slots[s], hf)
+            got = tuple(tuple(x) for x in outcome_vector(pane, self.slots[s], hf))
             want = self.table[(self.kinds[s], hf)]
             self.conv[s].add(hf)
             self.res['transitions'] += len(PROBES)
@@ -279,9 +352,12 @@ def build(pane, table, res, hist, alphabet=(KIND_NAMES, HFORMS)):
     return st
 
 
-def run_hist(pane, res, first_kind, depth, tier='thorough'):
+def run_hist(pane, res, first_kind, depth, tier='thorough', table=None):
     alphabet = ALPHABET[tier]
-    table = pristine_table(pane)
+    if table is None:
+        table = pristine_table(pane)
+    else:
+        table = {tuple(k): tuple(tuple(x) for x in v) for k, v in table}
     start = [('BUILD', first_kind)]
     seen = set()
     frontier = collections.deque([start])
@@ -374,7 +450,7 @@ def scenarios():
                 if keys[0] != 'a':
                     continue        # relabelling a <-> b gives the same scenario
                 out.append({'kind': 'keycache', 'maxsize': mode, 'shape': list(shape), 'keys': ''.join(keys)})
-    for pair in (('tup_a', 'tup_b'), ('tup_a', 'tup_a'), ('list_str', 'dict_sf'), ('struct_int', 'struct_str')):
+    for pair in (('tup_a', 'tup_b'), ('tup_a', 'tup_a'), ('list_str', 'dict_sf'), ('struct_int', 'struct_str'), ('dc_shared', 'dc_shared')):
         out.append({'kind': 'make_converter', 'types': list(pair)})
     return out
 
@@ -448,6 +524,28 @@ def run_scenario(pane, sc, bound, res, only_prefix=None):
             from pane.convert import make_converter
             make_converter.cache.clear()
             observed = []
+            if kinds[0] == 'dc_shared':
+                # two threads use one dataclass for the first time concurrently (its converter is built on first use)
+                import fractions
+                Shared = type('Shared', (pane.PaneBase,), {'__annotations__': {'name': str, 'ratio': fractions.Fraction, 'count': int},
+                                                           '__module__': 'mc.generated'})
+                datum = {'name': 'a', 'ratio': '1/2', 'count': 7}
+                want_repr = "Shared(name='a', ratio=Fraction(1, 2), count=7)"
+
+                def dc_body(i):
+                    def run_body():
+                        r = pane.from_data(dict(datum), Shared)
+                        d = pane.into_data(r, Shared)
+                        observed.append((i, repr(r) == want_repr and d == datum, (repr(r), d)))
+                        return repr(r)
+                    return run_body
+
+                def dc_check(run):
+                    for i, ok, r in observed:
+                        if not ok:
+                            return f"thread {i} got {r!r}"
+                    return None if len(observed) == 2 else f"only {len(observed)} of 2 threads completed"
+                return [dc_body(0), dc_body(1)], dc_check
 
             def body(i):
                 def run_body():
@@ -500,7 +598,9 @@ def run_scenario(pane, sc, bound, res, only_prefix=None):
 
 
 def plan(tier, seed):
-    shards = [{'part': 'hist', 'first': k} for k in ALPHABET[tier][0]]
+    # the pristine outcome table is computed ONCE, in fresh interpreters, and handed to every history shard
+    table = [[list(k), [list(x) for x in v]] for k, v in pristine_table().items()]
+    shards = [{'part': 'hist', 'first': k, 'table': table} for k in ALPHABET[tier][0]]
     scs = scenarios()
     # the expensive three-thread and make_converter scenarios first, one scenario per shard
     order = sorted(range(len(scs)), key=lambda i: (scs[i]['kind'] == 'keycache', scs[i].get('shape') != [3, 1]))
@@ -514,7 +614,7 @@ def run_shard(shard, tier):
     warnings.simplefilter('ignore')
     res = core.new_result()
     if shard['part'] == 'hist':
-        run_hist(pane, res, shard['first'], 5 if tier == 'quick' else 6, tier)
+        run_hist(pane, res, shard['first'], 5 if tier == 'quick' else 6, tier, shard.get('table'))
         return res
     scs = scenarios()
     for i in range(shard['from'], shard['to']):
